@@ -6,6 +6,7 @@ CONSTANTS
   QueueMax = 2
   MaxTasks = 3
   MaxOps = 9
+  RetryExact = TRUE
   SyncTask = TRUE
   Dev = {"late-same-peer"}
 INIT Init
